@@ -93,6 +93,20 @@ pub broadcast proof fn axiom_str_get_from(s: &str, i: core::ops::RangeFrom<usize
         (r matches Some(t) ==> i.start <= utf8(s@).len() && utf8(t@) == utf8(s@).subrange(i.start as int, utf8(s@).len() as int))
         && (r is None ==> !(1 <= i.start <= utf8(s@).len() && utf8(s@)[i.start - 1] < 128)),
 {}
+/// `trim_start_matches` with a `&str` pattern removes EVERY leading repetition of the pattern (not just one)
+#[verifier::external_body]
+pub broadcast proof fn axiom_trim_start_str(s: &str, p: &str, r: &str)
+    ensures #[trigger] trim_start_rel::<&str>(s, p, r) ==> exists|k: nat| utf8(s@) == seq_rep(utf8(p@), k) + utf8(r@)
+        && (utf8(p@).len() > 0 ==> !(utf8(r@).len() >= utf8(p@).len() && utf8(r@).subrange(0, utf8(p@).len() as int) == utf8(p@))),
+{}
+/// `strip_prefix` with a `&str` pattern removes exactly one leading occurrence, or reports that there is none
+#[verifier::external_body]
+pub broadcast proof fn axiom_strip_prefix_str(s: &str, p: &str, r: Option<&str>)
+    ensures #[trigger] strip_prefix_rel::<&str>(s, p, r) ==> match r {
+        Some(t) => utf8(s@) == utf8(p@) + utf8(t@),
+        None => !(utf8(s@).len() >= utf8(p@).len() && utf8(s@).subrange(0, utf8(p@).len() as int) == utf8(p@)),
+    },
+{}
 /// T13: `Hash for Vec<u8>` feeds a function of the contents
 #[verifier::external_body]
 pub proof fn axiom_hash_tok_vec(a: &Vec<u8>, b: &Vec<u8>)
@@ -206,7 +220,7 @@ pub broadcast proof fn axiom_ip6_len(a: std::net::Ipv6Addr)
 {}
 
 pub broadcast group group_trusted {
-    axiom_slice_eq, axiom_slice_obeys, axiom_string_index_range, axiom_string_index_from, axiom_starts_with_str, axiom_str_get_from, axiom_bytes_from_vec, axiom_bytes_from_vec_obeys, axiom_vec_len_bound, axiom_bm_len_bound, axiom_arr_eq, axiom_arr_obeys, axiom_vec_eq, axiom_vec_obeys, axiom_string_str_eq, axiom_string_str_obeys, axiom_string_refstr_eq, axiom_string_refstr_obeys, axiom_lossy_v4, axiom_slice_ord, axiom_slice_pord_obeys,
+    axiom_slice_eq, axiom_slice_obeys, axiom_string_index_range, axiom_string_index_from, axiom_starts_with_str, axiom_str_get_from, axiom_trim_start_str, axiom_strip_prefix_str, axiom_bytes_from_vec, axiom_bytes_from_vec_obeys, axiom_vec_len_bound, axiom_bm_len_bound, axiom_arr_eq, axiom_arr_obeys, axiom_vec_eq, axiom_vec_obeys, axiom_string_str_eq, axiom_string_str_obeys, axiom_string_refstr_eq, axiom_string_refstr_obeys, axiom_lossy_v4, axiom_slice_ord, axiom_slice_pord_obeys,
     axiom_vecu8_ord, axiom_vecu8_ord2, axiom_vecu8_borrow,
     axiom_contains_borrowed, axiom_maps_borrowed, axiom_removed_borrowed, axiom_vecu8_cmp,
     axiom_vec_ref, axiom_str_ref, axiom_vec_of, axiom_vec_from_str, axiom_vec_from_slice, axiom_vec_from_str_obeys, axiom_vec_from_slice_obeys, axiom_array_ref,
